@@ -10,13 +10,16 @@ package ext
 //@   safety[C02]
 //@   requires len(b) >= 2
 //@   ensures[!C02] result == be16(mem(b), lo(b))
+//@   noalloc[C17]
 
 //@ func (bigEndian).Uint32
 //@   safety[C02]
 //@   requires len(b) >= 4
 //@   ensures[!C02] result == be32(mem(b), lo(b))
+//@   noalloc[C17]
 
 //@ func (bigEndian).Uint64
 //@   safety[C02]
 //@   requires len(b) >= 8
 //@   ensures[!C02] result == be64(mem(b), lo(b))
+//@   noalloc[C17]
